@@ -405,3 +405,93 @@ Proof.
   intros Hr Hv. rewrite (parse_msg_history id gbk ver d r body Hv), (parse_msg_history id gbk ver d (VL []) body Hv).
   now rewrite (reach_config id gbk d r Hr).
 Qed.
+
+(* ------------------------------------------------------------------------------------------ *)
+(* "returns an error or a value": the only error any modelled decoder returns is the length error
+   (protocol.ErrBodyLengthInconsistency); the model's own error numbers 98 (unknown message id) and
+   99 (out of fuel) are never the answer for a modelled id *)
+Definition only_len {A} (r : result A) : Prop := forall e, r = Err e -> e = E_LEN.
+
+Lemma ol_bind {A B} (r : result A) (f : A -> result B) :
+  only_len r -> (forall a, only_len (f a)) -> only_len (bind r f).
+Proof. intros H1 H2 e. destruct r as [a|e0|]; cbn [bind]; [apply H2| |discriminate].
+  intros H. assert (e0 = e) by (injection H; auto). subst e0. now apply H1. Qed.
+Lemma ol_ok {A} (a : A) : only_len (Ok a). Proof. intros e; discriminate. Qed.
+Lemma ol_panic {A} : only_len (@Panic A). Proof. intros e; discriminate. Qed.
+Lemma ol_err {A} : only_len (@Err A E_LEN). Proof. intros e H. apply (f_equal (fun r => match r with Err x => x | _ => e end)) in H. now subst. Qed.
+Lemma ol_idx l i : only_len (idx l i).
+Proof. unfold idx. destruct (nth_error l (N.to_nat i)); [apply ol_ok|apply ol_panic]. Qed.
+Lemma ol_slice l i j : only_len (slice l i j).
+Proof. unfold slice. destruct ((i <=? j) && (j <=? len l)); [apply ol_ok|apply ol_panic]. Qed.
+Lemma ol_slice_from l i : only_len (slice_from l i).
+Proof. unfold slice_from. destruct (i <=? len l); [apply ol_ok|apply ol_panic]. Qed.
+Lemma ol_be_at l i n : only_len (be_at l i n).
+Proof. unfold be_at. apply ol_bind. apply ol_slice. intros; apply ol_ok. Qed.
+Lemma ol_uint_of w b : only_len (uint_of w b).
+Proof. unfold uint_of. destruct (len b <? w); [apply ol_panic|apply ol_ok]. Qed.
+Lemma ol_array_of w b : only_len (array_of w b).
+Proof. unfold array_of. destruct (len b <? w); [apply ol_panic|apply ol_ok]. Qed.
+
+Ltac ol :=
+  repeat first
+  [ apply ol_ok | apply ol_err | apply ol_panic | apply ol_idx | apply ol_slice | apply ol_slice_from
+  | apply ol_be_at | apply ol_uint_of | apply ol_array_of
+  | apply ol_bind; [|intros ?]
+  | match goal with |- only_len (if ?c then _ else _) => destruct c end ].
+
+Lemma ol_read_field base body f : only_len (read_field base body f).
+Proof. unfold read_field. destruct (f_kind f); ol. Qed.
+Lemma ol_read_fields base body fs : only_len (read_fields base body fs).
+Proof. induction fs as [|f fs IH]; cbn [read_fields]. apply ol_ok. apply ol_bind. apply ol_read_field. intros; ol. exact IH. Qed.
+Lemma ol_rec_loop n : forall i body start stride fs, only_len (rec_loop n i body start stride fs).
+Proof.
+  induction n as [|n IH]; intros; cbn [rec_loop]. apply ol_ok.
+  apply ol_bind. apply ol_read_fields. intros. apply ol_bind. apply IH. intros; apply ol_ok.
+Qed.
+Lemma ol_asign r data : only_len (asign_parse r data).
+Proof. destruct (asign_parse_ok r data) as [s E]. rewrite E. apply ol_ok. Qed.
+Lemma ol_fixed g fs body : only_len (fixed_parse g fs body).
+Proof. unfold fixed_parse. destruct (guard_ok g (len body)); [|apply ol_err]. apply ol_bind. apply ol_read_fields. intros; apply ol_ok. Qed.
+Lemma ol_t1210_items n : forall body start, only_len (t1210_items n body start).
+Proof.
+  induction n as [|n IH]; intros; cbn [t1210_items]. apply ol_ok.
+  ol. apply IH.
+Qed.
+Lemma ol_params gbk count body : only_len (params_parse gbk count body).
+Proof. intros e. apply params_err. Qed.
+
+Ltac ol2 :=
+  repeat first
+  [ apply ol_read_fields | apply ol_rec_loop | apply ol_asign | apply ol_t1210_items | apply ol_params
+  | apply ol_ok | apply ol_err | apply ol_panic | apply ol_idx | apply ol_slice | apply ol_slice_from
+  | apply ol_be_at | apply ol_uint_of | apply ol_array_of
+  | apply ol_bind; [|intros ?]
+  | match goal with |- only_len (if ?c then _ else _) => destruct c end ].
+
+Theorem parse_msg_only_len id gbk ver d r body e : mem id modelled_ids = true ->
+  parse_msg id gbk ver d r body = Err e -> e = E_LEN.
+Proof.
+  intros Hm. revert e. change (only_len (parse_msg id gbk ver d r body)).
+  unfold parse_msg. destruct (lookup id fixed_layouts) as [lay|] eqn:L. apply ol_fixed.
+  destruct (id =? 256) eqn:E256. { unfold t0100_parse. destruct (t0100_widths ver (len body)) as [[m t] i]. ol2. }
+  destruct (id =? 258) eqn:E258. { unfold t0102_parse. ol2. }
+  destruct (id =? 260) eqn:E260. { unfold t0104_parse. ol2. }
+  destruct (id =? 2053) eqn:E2053. { unfold t0805_parse. ol2. }
+  destruct (id =? 4613) eqn:E4613. { unfold t1205_parse. ol2. }
+  destruct (id =? 4624) eqn:E4624. { unfold t1210_parse. cbv zeta. ol2. }
+  destruct (id =? 4625) eqn:E4625. { unfold t1211_parse. ol2. }
+  destruct (id =? 4626) eqn:E4626. { unfold t1212_parse, t1211_parse. ol2. }
+  destruct (id =? 32771) eqn:E32771. { unfold p8003_parse. ol2. }
+  destruct (id =? 33027) eqn:E33027. { unfold p8103_parse. ol2. }
+  destruct (id =? 34816) eqn:E34816. { unfold p8800_parse. ol2. }
+  destruct (id =? 37121) eqn:E37121. { unfold p9101_parse. ol2. }
+  destruct (id =? 37377) eqn:E37377. { unfold p9201_parse. ol2. }
+  destruct (id =? 37382) eqn:E37382. { unfold p9206_parse. cbv zeta. ol2. }
+  destruct (id =? 37384) eqn:E37384. { unfold p9208_parse. cbv zeta. ol2. }
+  destruct (id =? 37394) eqn:E37394. { unfold p9212_parse. ol2. }
+  (* not a modelled id: contradiction with Hm *)
+  exfalso. unfold mem in Hm. apply existsb_exists in Hm. destruct Hm as (x & Hin & Hx).
+  assert (x = id) by lia. subst x. vm_compute in Hin.
+  repeat (destruct Hin as [Hin|Hin]; [subst id; first [now vm_compute in L | lia]|]).
+  exact Hin.
+Qed.
